@@ -2,6 +2,9 @@
 import json, os, re, sys, time
 
 VERIF = os.path.dirname(os.path.dirname(os.path.abspath(__file__)))
+# VERIF_OUT redirects evidence/ and replay/ (used by tools/seedtest_copy.sh so that a run against a patched copy of
+# the repository never overwrites the evidence of the real tree). Registered commands never set it.
+OUT = os.environ.get("VERIF_OUT") or VERIF
 
 
 def load_findings(prop):
@@ -97,8 +100,8 @@ class Check:
             "violations": len(self.violations),
             "known_findings": {k: v[0] for k, v in self.known.items()},
         }
-        os.makedirs(os.path.join(VERIF, "evidence"), exist_ok=True)
-        with open(os.path.join(VERIF, "evidence", self.prop + ".json"), "w") as f:
+        os.makedirs(os.path.join(OUT, "evidence"), exist_ok=True)
+        with open(os.path.join(OUT, "evidence", self.prop + ".json"), "w") as f:
             json.dump(ev, f, indent=1, default=str)
         for fk, (n, ex) in sorted(self.known.items()):
             print("KNOWN-FINDING: property=%s %s (%d cases, e.g. %s)" % (self.prop, fk, n, " ".join(str(ex).split())[:300]))
@@ -113,7 +116,7 @@ class Check:
                 print("HARNESS-ERROR %s: %s" % (self.prop, str(e)[:600]))
             return 2
         if self.violations:
-            rdir = os.path.join(VERIF, "replay", self.prop)
+            rdir = os.path.join(OUT, "replay", self.prop)
             os.makedirs(rdir, exist_ok=True)
             seen = set()
             for i, (key, desc, replay) in enumerate(self.violations):
